@@ -94,6 +94,11 @@ def layer_attrs(tier, lookalikes=False):
     for d in ({"date": "2020-01-02"}, {"date": "1999-12-31"}):
         yield {"layer": "A", "spec": attr_doc("document", "date", d),
                "tags": {"element": "document", "attr": "date", "atoms": [repr(d)]}}
+    # a dependency_value need not be text: the value 0 of an int Property, False of a boolean one
+    for dv in (0, 0.0, False, 5, True):
+        spec = attr_doc("property", "dependency_value", dv)
+        spec["sections"][0]["properties"][0]["attrs"]["dependency"] = "other"
+        yield {"layer": "A", "spec": spec, "tags": {"element": "property", "attr": "dependency_value", "atoms": [repr(dv)]}}
     for u in UNCERTAINTIES:
         spec = attr_doc("property", "uncertainty", u)
         spec["sections"][0]["properties"][0].update({"values": [1.5], "dtype": "float"})
@@ -249,6 +254,13 @@ def _number(a):
     return a
 
 
+def _as_text(a):
+    """XML holds the text of a dependency_value only: 0, 0.0 and False are read back as '0', '0.0', 'False'."""
+    if isinstance(a, list) and len(a) == 2 and a[0] in ("int", "float", "bool"):
+        return _strip_atom(["str", repr(str(ast.literal_eval(a[1])))], True)
+    return _strip_atom(a, True)
+
+
 def normalise_trim(snap):
     """What the XML form keeps of a snapshot: surrounding whitespace of text is trimmed; a text attribute
     that is empty after trimming is indistinguishable from an unset one."""
@@ -263,6 +275,8 @@ def normalise_trim(snap):
                 out[k] = v
             elif k == "uncertainty":
                 out[k] = _number(v)
+            elif k == "dependency_value":
+                out[k] = _as_text(v)
             else:
                 out[k] = _strip_atom(v, True)
         return out
